@@ -150,6 +150,23 @@ fn history() {
             check_native("instantiate_after_rollback_succeeds", false, || format!("{:#}", e));
         }
     }
+    // every code is still instantiable, at a fresh address, after instances were migrated between
+    // codes (the number of contracts recorded under a code id went down; seed C11c)
+    for (i, id) in ids.iter().enumerate() {
+        match catch(|| app.instantiate_contract(*id, user.clone(), &Script::new(), &[], format!("again{}", i), None)) {
+            Err(p) => {
+                failure("no_panic", "panic", p);
+                return;
+            }
+            Ok(Err(e)) => {
+                check_native("every_stored_code_can_be_instantiated_again_after_migrations", false, || format!("id {}: {:#}", id, e));
+            }
+            Ok(Ok(a)) => {
+                check_native("new_address_is_fresh", !addrs.contains(&a), || format!("{} repeated", a));
+                addrs.push(a);
+            }
+        }
+    }
     // salted addresses: a function of checksum, creator and salt only
     let salts: [&[u8]; 2] = [b"salt-one", b"\x00\xff"];
     let s = choose(2);
